@@ -3,12 +3,13 @@
     [Gen/C20_Transforms.v] is regenerated on every run from the text of BSL._para_logit_transform,
     _para_logit_back_transform, _jacobian_logit_transform (harness/translate_c20.py); the first group of
     theorems is about those generated definitions.  [Num/Bsl.v] is the hand-written model of the accept step,
-    of [_init_round]'s out-of-support shortcut and of the mean/covariance plumbing.
+    of [_init_round]'s out-of-support shortcut, of the mean/covariance plumbing, of the misspecification
+    adjustments and of call histories that re-use the caller's arrays.
     This file only states the property theorems; proofs are in Proofs/C20_*.v. *)
 From Coq Require Import Reals Lra ZArith QArith Qabs Qminmax Qreals List Bool.
 From Coquelicot Require Import Coquelicot.
 From Elfi Require Import Gen.C20_Transforms Num.Bsl
-     Proofs.C20_Transforms Proofs.C20_Mh Proofs.C20_MhR Proofs.C20_Lik.
+     Proofs.C20_Transforms Proofs.C20_Mh Proofs.C20_MhR Proofs.C20_Lik Proofs.C20_Hist.
 Import ListNotations.
 
 (** ---- 1. the bounded-parameter transform (generated formulas), every bound type ---- *)
@@ -190,6 +191,72 @@ Theorem C20_model_ok : forall use_tr p_new lpost_new prev j ec ratio,
 Proof. exact model_ok_mh. Qed.
 Print Assumptions C20_model_ok.
 
+(** ---- 6. call histories (the same observed / whitening / gamma arrays handed to the code again and again) and the
+        misspecification adjustments ---- *)
+
+(** a history agrees with the model / satisfies the statement iff each of its evaluations does when compared with a
+    FRESH run of the model on the values on record: nothing is carried over from one evaluation to the next *)
+Theorem C20_history_agree_each : forall d v y evals,
+  agree (CHist d v y evals) = true <-> List.Forall (fun e => agree (CHist d v y [e]) = true) evals.
+Proof. exact hist_agree_each. Qed.
+Print Assumptions C20_history_agree_each.
+
+Theorem C20_history_ok_each : forall d v y evals,
+  ok (CHist d v y evals) = true <-> List.Forall (fun e => ok (CHist d v y [e]) = true) evals.
+Proof. exact hist_ok_each. Qed.
+Print Assumptions C20_history_ok_each.
+
+Theorem C20_history_ok_sound : forall d v y evals,
+  ok (CHist d v y evals) = true -> forall e, In e evals -> eval_ok d v y e = true.
+Proof. exact hist_ok_sound. Qed.
+Print Assumptions C20_history_ok_sound.
+
+(** the verdict on a history does not depend on how it is cut or in which order the evaluations were made *)
+Theorem C20_history_ok_app : forall d v y es1 es2,
+  ok (CHist d v y (es1 ++ es2)) = ok (CHist d v y es1) && ok (CHist d v y es2).
+Proof. exact hist_ok_app. Qed.
+Print Assumptions C20_history_ok_app.
+
+Theorem C20_history_ok_rev : forall d v y es, ok (CHist d v y (rev es)) = ok (CHist d v y es).
+Proof. exact hist_ok_rev. Qed.
+Print Assumptions C20_history_ok_rev.
+
+(** the model's value for an evaluation is the same whatever was evaluated before it *)
+Theorem C20_eval_model_stateless : forall ce d v y e (before before' : list lik_eval),
+  nth (length before) (map (eval_model ce d v y) (before ++ [e])) (nil, nil, nil)
+  = nth (length before') (map (eval_model ce d v y) (before' ++ [e])) (nil, nil, nil).
+Proof. exact eval_model_stateless. Qed.
+Print Assumptions C20_eval_model_stateless.
+
+(** variance adjustment as coded, Sigma_ii + (sqrt(Sigma_ii) gamma_i)^2, is the published Sigma_ii (1 + gamma_i^2);
+    off the diagonal nothing changes; gamma = 0 switches the adjustments off; variances never decrease *)
+Theorem C20_mis_var_diagonal : forall s sd g, (sd * sd == s -> mis_var_entry s sd g true == mis_var_spec_entry s g true)%Q.
+Proof. exact mis_var_diag. Qed.
+Print Assumptions C20_mis_var_diagonal.
+
+Theorem C20_mis_var_off_diagonal : forall s sd g, (mis_var_entry s sd g false == mis_var_spec_entry s g false)%Q.
+Proof. exact mis_var_off. Qed.
+Print Assumptions C20_mis_var_off_diagonal.
+
+Theorem C20_mis_mean_zero : forall m sd, (mis_mean_entry m sd 0 == m)%Q.
+Proof. exact mis_mean_zero. Qed.
+Print Assumptions C20_mis_mean_zero.
+
+Theorem C20_mis_var_zero : forall s sd diag, (mis_var_entry s sd 0 diag == s)%Q.
+Proof. exact mis_var_zero. Qed.
+Print Assumptions C20_mis_var_zero.
+
+Theorem C20_mis_var_increases : forall s sd g diag, (s <= mis_var_entry s sd g diag)%Q.
+Proof. exact mis_var_increases. Qed.
+Print Assumptions C20_mis_var_increases.
+
+(** an evaluation made with gamma * sd (what an in-place update of the caller's array during the previous
+    evaluation would hand to the next one) has the stated mean only if sd' * gamma * (sd - 1) = 0 *)
+Theorem C20_mis_mean_scaled_gamma_differs : forall m sd sd' g,
+  (mis_mean_entry m sd' (g * sd) == mis_mean_entry m sd' g -> sd' * g * (sd - 1) == 0)%Q.
+Proof. exact mis_mean_scaled_gamma_differs. Qed.
+Print Assumptions C20_mis_mean_scaled_gamma_differs.
+
 (** ---- non-vacuity ---- *)
 
 (** a two-sided, an upper-bounded and a lower-bounded coordinate are well-formed / strictly inside *)
@@ -215,4 +282,24 @@ Example C20_ex_step :
   let ex := fun _ : Q => 1#2 in
   s_rows (process_simulated ex (fun _ => 0) false 0 st (-2) (1#4)) = [r0; mkRow [3#5] (-1#2) (-2 + (-1#2))]
   /\ s_rows (process_simulated ex (fun _ => 0) false 0 st (-2) (3#4)) = [r0; r0].
+Proof. vm_compute. split; reflexivity. Qed.
+
+(** a history of two mean-adjusted evaluations with one gamma = (1/2, 1): simulated summaries with covariance
+    [[1,1],[1,4]] (sd = (1,2)), then the same summaries doubled (sd = (2,4)).  The stated arguments pass; the second
+    evaluation computed with gamma * sd of the first one (gamma updated in place by the first call) does not. *)
+Example C20_ex_history :
+  let X1 := [[-1; 0]; [0; -2]; [1; 2]] in let X2 := [[-2; 0]; [0; -4]; [2; 4]] in
+  let g := [1#2; 1] in
+  let e1 := mkEval X1 g [1; 2] [0; 0] [1#2; 2] [[1; 1]; [1; 4]] in
+  let e2 := mkEval X2 g [2; 4] [0; 0] [1; 4] [[4; 4]; [4; 16]] in
+  let e2_bad := mkEval X2 g [2; 4] [0; 0] [1; 8] [[4; 4]; [4; 16]] in
+  agree (CHist 2 VMean [0; 0] [e1; e2]) = true /\ ok (CHist 2 VMean [0; 0] [e1; e2]) = true /\
+  ok (CHist 2 VMean [0; 0] [e1; e2_bad]) = false /\ ok (CHist 2 VMean [0; 0] [e1]) = true.
+Proof. vm_compute. repeat split; reflexivity. Qed.
+
+(** variance adjustment, gamma = (1, 1/2): Sigma + diag(Sigma_ii gamma_i^2) = [[2,1],[1,5]] *)
+Example C20_ex_history_var :
+  let X1 := [[-1; 0]; [0; -2]; [1; 2]] in
+  let e1 := mkEval X1 [1; 1#2] [1; 2] [0; 0] [0; 0] [[2; 1]; [1; 5]] in
+  agree (CHist 2 VVar [0; 0] [e1; e1]) = true /\ ok (CHist 2 VVar [0; 0] [e1; e1]) = true.
 Proof. vm_compute. split; reflexivity. Qed.
